@@ -11,16 +11,30 @@ import "gopkg.in/typ.v4"
 // public operation runs with a symbolic argument, and effect + invariant are asserted.
 // The parameters SET / BAL select which half is asserted (C01 / C02).
 
-func c01cmp() (func(a, b int) int, bool) {
-	if vChoose("order", 2) == 1 {
-		return func(a, b int) int { return typ.Compare(b, a) }, true
+// The comparator: natural order, reversed order, or - only when the parameter PK is 1, for
+// the balance property, which does not depend on the comparator being consistent with == -
+// an order that looks at part of the value only (the key v>>1; the low bit is a payload), so
+// that distinct values can compare as equal.
+func c01cmp() (func(a, b int) int, int) {
+	n := 2
+	if vParam("PK") == 1 {
+		n = 3
 	}
-	return typ.Compare[int], false
+	switch vChoose("order", n) {
+	case 1:
+		return func(a, b int) int { return typ.Compare(b, a) }, 1
+	case 2:
+		return func(a, b int) int { return typ.Compare(a>>1, b>>1) }, 2
+	}
+	return typ.Compare[int], 0
 }
 
-func c01le(rev bool, a, b int) bool {
-	if rev {
+func c01le(rev int, a, b int) bool {
+	switch rev {
+	case 1:
 		return a >= b
+	case 2:
+		return a>>1 <= b>>1
 	}
 	return a <= b
 }
@@ -151,6 +165,19 @@ func c01spliceOut(post, pre []int, v int) bool {
 	return any
 }
 
+// c01same: the same contents. Under a comparator consistent with == that is the same in-order
+// sequence; under the partial-key comparator (ord 2) values that compare as equal may appear in
+// another relative order, so only the multiset is compared (on a universally quantified probe).
+func c01same(ord int, a, b []int, label string) {
+	if ord != 2 {
+		c01eq(a, b, label)
+		return
+	}
+	vAssert(len(a) == len(b), label)
+	p := vInt("probe.same")
+	vAssert(c01count(a, p) == c01count(b, p), label)
+}
+
 func c01eq(a, b []int, label string) {
 	vAssert(len(a) == len(b), label)
 	for i := range a {
@@ -161,7 +188,7 @@ func c01eq(a, b []int, label string) {
 }
 
 // c01inv asserts the invariant on the tree after an operation.
-func c01inv(t *Tree[int], rev bool, what string) []int {
+func c01inv(t *Tree[int], rev int, what string) []int {
 	var in []int
 	c01in(t.root, &in)
 	if vParam("SET") == 1 {
@@ -274,7 +301,7 @@ func c01step(op int) {
 		}
 		var cin []int
 		c01in(c.root, &cin)
-		c01eq(cin, pre, "Clone has the same contents")
+		c01same(rev, cin, pre, "Clone has the same contents")
 		vAssert(c.Len() == n, "Clone has the same Len")
 		var a, b []*node[int]
 		c01nodes(t.root, &a)
@@ -376,7 +403,7 @@ func VHAvlHist() {
 		}
 		var cin []int
 		c01in(c.root, &cin)
-		c01eq(cin, before, "history: Clone has the same contents")
+		c01same(rev, cin, before, "history: Clone has the same contents")
 		vAssert(c.Len() == size, "history: Clone has the same Len")
 		var a, b []*node[int]
 		c01nodes(t.root, &a)
